@@ -2,72 +2,138 @@ import Proofs.Crash
 
 /-!
 # Restart on a durable image satisfying the disk invariant (C04 (b), (d))
+
+`start` issues, in this order: (no state saved) the genesis block at the initial height; `setHeight` to the height of
+the (saved or genesis) state, if the recorded chain height is below it — **this is what repairs a crash between
+`updateState` and `setHeight`**; the two submission watermarks, raised to `initialHeight - 1` when they read less.
 -/
 namespace Producer
 open Wire Chain
 
-/-- the writes `start` issues when no state is saved: the genesis block at the initial height, then the chain
-height is raised to `initialHeight - 1` (a no-op when it is already there) -/
-def restartWrites (c : Cfg) (d : Store) : List SW :=
-  SW.saveBlock c.initialHeight (genesisBlock c) ::
-    setHeightW (d.apply (.saveBlock c.initialHeight (genesisBlock c))) (c.initialHeight - 1)
+theorem wmWrite_wmSafe (c : Cfg) (key : String) (w : Nat) : ∀ x ∈ wmWrite c key w, WmSafe x := by
+  unfold wmWrite
+  split <;> simp [WmSafe, le64_length]
 
-/-- every prefix image of `restartWrites` on a state-less image below the genesis -/
-theorem restart_prefix_facts (c : Cfg) (d : Store) (hlow : d.height < c.initialHeight) (k : Nat) :
-    (d.applyPrefix k (restartWrites c d)).state = d.state ∧
-    (d.applyPrefix k (restartWrites c d)).kv = d.kv ∧
-    d.height ≤ (d.applyPrefix k (restartWrites c d)).height ∧
-    (d.applyPrefix k (restartWrites c d)).height < c.initialHeight ∧
-    (∀ h, h ≠ c.initialHeight → (d.applyPrefix k (restartWrites c d)).getBlock h = d.getBlock h) := by
-  unfold restartWrites Store.applyPrefix setHeightW
-  cases k with
-  | zero => simp [Store.applyAll]; omega
-  | succ k =>
-    simp only [List.take_succ_cons, applyAll_cons]
-    have hside : ∀ h, h ≠ c.initialHeight →
-        (d.apply (.saveBlock c.initialHeight (genesisBlock c))).getBlock h = d.getBlock h :=
-      fun h hh => getBlock_saveBlock_other _ _ _ _ (Ne.symm hh)
-    split
-    · rename_i hgt
-      cases k with
-      | zero => simp only [List.take_zero, applyAll_nil]; exact ⟨rfl, rfl, Nat.le_refl _, hlow, hside⟩
-      | succ k =>
-        simp only [List.take_succ_cons, List.take_nil, applyAll_cons, applyAll_nil]
-        have hgt' : c.initialHeight - 1 > d.height := hgt
-        refine ⟨by simp, ?_, ?_, ?_, ?_⟩
-        · simp [Store.apply, hgt']
-        · rw [height_setHeight]; simp [hgt']; omega
-        · rw [height_setHeight]; simp [hgt']; omega
-        · intro h hh; rw [getBlock_setHeight]; exact hside h hh
-    · simp only [List.take_nil, applyAll_nil]; exact ⟨rfl, rfl, Nat.le_refl _, hlow, hside⟩
+/-- a metadata write of eight bytes -/
+def IsWm (w : SW) : Prop := ∃ k x, w = .setMeta k (le64 x)
+
+theorem wmWrite_isWm (c : Cfg) (key : String) (w : Nat) : ∀ x ∈ wmWrite c key w, IsWm x := by
+  unfold wmWrite
+  split
+  · intro x hx
+    simp only [List.mem_cons, List.mem_nil_iff, or_false] at hx
+    exact ⟨key, _, hx⟩
+  · simp
+
+theorem IsWm.wmSafe {w : SW} (h : IsWm w) : WmSafe w := by
+  obtain ⟨k, x, rfl⟩ := h
+  exact Or.inr (le64_length x)
+
+/-- watermark writes keep the disk invariant and change neither height, nor blocks, nor the saved state -/
+theorem wm_applyAll {c : Cfg} {d : Store} {l : List SW} (hd : DInv c d) (hl : ∀ w ∈ l, IsWm w) :
+    DInv c (d.applyAll l) ∧ (d.applyAll l).height = d.height ∧ (∀ k, (d.applyAll l).getBlock k = d.getBlock k) ∧
+    (d.applyAll l).state = d.state := by
+  induction l generalizing d with
+  | nil => exact ⟨hd, rfl, fun _ => rfl, rfl⟩
+  | cons w l ih =>
+    have hw := hl w (List.mem_cons_self ..)
+    obtain ⟨k, x, rfl⟩ := hw
+    have hd1 : DInv c (d.apply (.setMeta k (le64 x))) :=
+      dinv_of_same hd rfl (fun _ => rfl) rfl (wmOK_apply (Or.inr (le64_length x)) hd.wm)
+    obtain ⟨a, b, e, f⟩ := ih hd1 (fun w' hw' => hl w' (List.mem_cons_of_mem _ hw'))
+    rw [applyAll_cons]
+    exact ⟨a, by rw [b]; rfl, fun k' => by rw [e]; rfl, by rw [f]; rfl⟩
+
+/-! ## no state saved: the genesis restart -/
+
+/-- the writes `start` issues when no state is saved and the watermarks read `w1`, `w2`: the genesis block at the
+initial height, the chain height raised to `initialHeight - 1` (a no-op when it is already there), the watermarks -/
+def restartWrites (c : Cfg) (d : Store) (w1 w2 : Nat) : List SW :=
+  [SW.saveBlock c.initialHeight (genesisBlock c)] ++
+    setHeightW (d.apply (.saveBlock c.initialHeight (genesisBlock c))) (c.initialHeight - 1) ++
+    wmWrite c hdrWmKey w1 ++ wmWrite c dataWmKey w2
+
+/-- a write `start` issues on a state-less image -/
+inductive GenWrite (c : Cfg) : SW → Prop
+  | genesis : GenWrite c (.saveBlock c.initialHeight (genesisBlock c))
+  | height : GenWrite c (.setHeight (c.initialHeight - 1))
+  | wm (w : SW) (h : IsWm w) : GenWrite c w
+
+theorem GenWrite.wmSafe {c : Cfg} {w : SW} (h : GenWrite c w) : WmSafe w := by
+  cases h with
+  | genesis => simp [WmSafe]
+  | height => simp [WmSafe]
+  | wm w h => exact h.wmSafe
+
+theorem restartWrites_gen (c : Cfg) (d : Store) (w1 w2 : Nat) : ∀ w ∈ restartWrites c d w1 w2, GenWrite c w := by
+  intro w hw
+  simp only [restartWrites, List.mem_append, List.mem_cons, List.mem_nil_iff, or_false] at hw
+  rcases hw with ((rfl | hw) | hw) | hw
+  · exact .genesis
+  · unfold setHeightW at hw
+    split at hw
+    · simp only [List.mem_cons, List.mem_nil_iff, or_false] at hw
+      subst hw; exact .height
+    · cases hw
+  · exact .wm w (wmWrite_isWm _ _ _ w hw)
+  · exact .wm w (wmWrite_isWm _ _ _ w hw)
+
+/-- any list of such writes on a state-less image below the genesis -/
+theorem genWrites_facts {c : Cfg} {d : Store} (hlow : d.height < c.initialHeight) {l : List SW}
+    (hl : ∀ w ∈ l, GenWrite c w) :
+    (d.applyAll l).state = d.state ∧ d.height ≤ (d.applyAll l).height ∧ (d.applyAll l).height < c.initialHeight ∧
+    (∀ h, h ≠ c.initialHeight → (d.applyAll l).getBlock h = d.getBlock h) := by
+  induction l generalizing d with
+  | nil => exact ⟨rfl, Nat.le_refl _, hlow, fun _ _ => rfl⟩
+  | cons w l ih =>
+    have hw := hl w (List.mem_cons_self ..)
+    have h1 : (d.apply w).state = d.state ∧ d.height ≤ (d.apply w).height ∧ (d.apply w).height < c.initialHeight ∧
+        (∀ h, h ≠ c.initialHeight → (d.apply w).getBlock h = d.getBlock h) := by
+      cases hw with
+      | genesis => exact ⟨rfl, Nat.le_refl _, hlow, fun h hh => getBlock_saveBlock_other _ _ _ _ (Ne.symm hh)⟩
+      | height =>
+        refine ⟨state_setHeight _ _, ?_, ?_, fun h _ => getBlock_setHeight _ _ _⟩
+        · rw [height_setHeight]; split <;> omega
+        · rw [height_setHeight]; split <;> omega
+      | wm w h =>
+        obtain ⟨k, x, rfl⟩ := h
+        exact ⟨rfl, Nat.le_refl _, hlow, fun _ _ => rfl⟩
+    obtain ⟨a, b, e, f⟩ := ih h1.2.2.1 (fun w' hw' => hl w' (List.mem_cons_of_mem _ hw'))
+    rw [applyAll_cons]
+    exact ⟨by rw [a, h1.1], Nat.le_trans h1.2.1 b, e, fun h hh => by rw [f h hh, h1.2.2.2 h hh]⟩
 
 /-- the image after all restart writes -/
-theorem restart_all_facts (c : Cfg) (d : Store) (hlow : d.height < c.initialHeight) :
-    (d.applyAll (restartWrites c d)).height = c.initialHeight - 1 ∧
-    (d.applyAll (restartWrites c d)).getBlock c.initialHeight = some (genesisBlock c) := by
-  unfold restartWrites setHeightW
-  rw [applyAll_cons]
-  split
-  · rename_i hgt
-    have hgt' : c.initialHeight - 1 > d.height := hgt
-    simp [Store.applyAll, height_setHeight, hgt']
-  · rename_i hgt
-    have hgt' : ¬ c.initialHeight - 1 > d.height := hgt
-    simp [Store.applyAll]; omega
+theorem restart_all_facts (c : Cfg) (d : Store) (w1 w2 : Nat) (hlow : d.height < c.initialHeight) :
+    (d.applyAll (restartWrites c d w1 w2)).height = c.initialHeight - 1 ∧
+    (d.applyAll (restartWrites c d w1 w2)).getBlock c.initialHeight = some (genesisBlock c) := by
+  unfold restartWrites
+  rw [applyAll_append, applyAll_append, applyAll_append]
+  obtain ⟨e1, e2, _⟩ := wmWrite_facts c (((d.applyAll [SW.saveBlock c.initialHeight (genesisBlock c)]).applyAll
+    (setHeightW (d.apply (.saveBlock c.initialHeight (genesisBlock c))) (c.initialHeight - 1))).applyAll
+    (wmWrite c hdrWmKey w1)) dataWmKey w2
+  obtain ⟨b1, b2, _⟩ := wmWrite_facts c ((d.applyAll [SW.saveBlock c.initialHeight (genesisBlock c)]).applyAll
+    (setHeightW (d.apply (.saveBlock c.initialHeight (genesisBlock c))) (c.initialHeight - 1))) hdrWmKey w1
+  rw [e1, e2, b1, b2]
+  have : d.applyAll [SW.saveBlock c.initialHeight (genesisBlock c)] = d.apply (.saveBlock c.initialHeight (genesisBlock c)) := rfl
+  rw [this]
+  obtain ⟨a1, a2, _⟩ := applyAll_setHeightW (d.apply (.saveBlock c.initialHeight (genesisBlock c))) (c.initialHeight - 1)
+  rw [a1, a2]
+  refine ⟨?_, getBlock_saveBlock_same _ _ _⟩
+  rw [height_saveBlock]
+  split <;> omega
 
 theorem dinv_of_noState {c : Cfg} {d : Store} (hpos : 1 ≤ c.initialHeight) (hw : WmOK d) (hst : d.state = none)
     (hlow : d.height < c.initialHeight) (habove : ∀ h, h > c.initialHeight → d.getBlock h = none) : DInv c d :=
   ⟨hpos, hw, fun _ => ⟨hlow, habove⟩, fun s hs => by rw [hst] at hs; cases hs⟩
 
-/-- the node `start` builds when no state is saved satisfies the production invariant -/
-theorem inv_restart_genesis {c : Cfg} {d : Store} (hpos : 1 ≤ c.initialHeight) (hlow : d.height < c.initialHeight)
-    (habove : ∀ h, h > c.initialHeight → d.getBlock h = none) {n : Node}
-    (hst : n.store = d.applyAll (restartWrites c d)) (hls : n.lastState = genesisState c) : Inv c n := by
-  obtain ⟨hh, hg⟩ := restart_all_facts c d hlow
-  obtain ⟨_, _, _, _, hside⟩ := restart_prefix_facts c d hlow (restartWrites c d).length
-  rw [applyPrefix_all _ _ _ (Nat.le_refl _)] at hside
-  rw [← hst] at hh hg hside
-  refine ⟨hpos, ?_, ?_, ?_, ?_, ?_, ?_, ?_, ?_⟩
+/-- a node below the genesis holding the genesis state, with the genesis block stored at the initial height and
+nothing above, satisfies the production invariant -/
+theorem live_genesis {c : Cfg} {n : Node} (hpos : 1 ≤ c.initialHeight) (hh : n.store.height = c.initialHeight - 1)
+    (hg : n.store.getBlock c.initialHeight = some (genesisBlock c))
+    (habove : ∀ h, h > c.initialHeight → n.store.getBlock h = none) (hls : n.lastState = genesisState c) :
+    Live c n := by
+  have e : n.store.height + 1 = c.initialHeight := by rw [hh]; omega
+  refine ⟨⟨hpos, ?_, ?_, ?_, ?_, ?_, ?_, ?_, ?_⟩, ?_, ?_⟩
   · rw [hh, hls]; rfl
   · rw [hh]; omega
   · rw [hls]; rfl
@@ -75,7 +141,6 @@ theorem inv_restart_genesis {c : Cfg} {d : Store} (hpos : 1 ≤ c.initialHeight)
   · intro _; rw [hls]; exact ⟨rfl, rfl⟩
   · intro h1; rw [hh] at h1; omega
   · intro pb hpb
-    have e : n.store.height + 1 = c.initialHeight := by rw [hh]; omega
     rw [e, hg] at hpb
     simp only [Option.some.injEq] at hpb
     subst hpb
@@ -84,63 +149,156 @@ theorem inv_restart_genesis {c : Cfg} {d : Store} (hpos : 1 ≤ c.initialHeight)
     · intro hgt; omega
   · intro h hgt
     rw [hh] at hgt
-    rw [hside h (by omega)]
     exact habove h (by omega)
+  · intro pb hpb
+    rw [e, hg] at hpb
+    simp only [Option.some.injEq] at hpb
+    subst hpb
+    rw [hls]; exact genesis_pendValid c
+  · intro _; exact ⟨_, hg⟩
+
+/-! ## a state is saved -/
+
+/-- the writes `start` issues when the state `s` is saved: the chain height raised to the state's height (only in
+the window between `updateState` and `setHeight`), the watermarks -/
+def resumeWrites (c : Cfg) (d : Store) (s : State) (w1 w2 : Nat) : List SW :=
+  setHeightW d s.lastHeight ++ wmWrite c hdrWmKey w1 ++ wmWrite c dataWmKey w2
+
+theorem dinv_raised {c : Cfg} {d : Store} (hd : DInv c d) {s : State} (hs : d.state = some s) :
+    DInv c (raised d s) := by
+  obtain ⟨hge, _, hl⟩ := hd.withState s hs
+  obtain ⟨_, _, r3, r4⟩ := raised_facts d s
+  have hw : WmOK (raised d s) := by
+    unfold WmOK; rw [wmOf_congr r4, wmOf_congr r4]; exact hd.wm
+  exact dinv_of_node (n := { store := raised d s, lastState := s }) hl (Or.inl ⟨by rw [r3]; exact hs, hge⟩) hw
+
+theorem setHeightW_take (d : Store) (h k : Nat) :
+    d.applyAll ((setHeightW d h).take k) = d ∨ d.applyAll ((setHeightW d h).take k) = d.applyAll (setHeightW d h) := by
+  unfold setHeightW
+  split
+  · cases k with
+    | zero => exact Or.inl rfl
+    | succ k => exact Or.inr (by simp)
+  · exact Or.inl (by simp [Store.applyAll])
 
 /-- **(b), (d): restart on an image satisfying the disk invariant.**  `start` succeeds; the node it builds
 satisfies the production invariant, is in sync with its image, its store is the image with exactly the reported
 writes applied; every prefix image of these writes (a crash during recovery) satisfies the disk invariant again
-and leaves every committed block alone; when a state was saved, `start` writes nothing at all. -/
+and leaves every committed block alone; when a state was saved, the node holds it and its chain height is the
+state's height (raised if the image was in the window). -/
 theorem start_of_dinv {c : Cfg} {d : Store} (hd : DInv c d) :
-    ∃ n ws, start c d = .ok (n, ws) ∧ Inv c n ∧ Synced c n ∧ WmOK n.store ∧ n.store = d.applyAll ws ∧
+    ∃ n ws, start c d = .ok (n, ws) ∧ Live c n ∧ Synced c n ∧ WmOK n.store ∧ n.store = d.applyAll ws ∧
       (∀ k, DInv c (d.applyPrefix k ws)) ∧ (∀ k, Adv c d (d.applyPrefix k ws)) ∧
-      (d.state ≠ none → ws = []) := by
+      (∀ s, d.state = some s → n.lastState = s ∧ n.store.height = s.lastHeight ∧
+        ∃ w1 w2, ws = resumeWrites c d s w1 w2) := by
   obtain ⟨⟨w1, hw1⟩, ⟨w2, hw2⟩⟩ := hd.wm
   cases hst : d.state with
   | none =>
     obtain ⟨hlow, habove⟩ := hd.noState hst
-    have hpf := restart_prefix_facts c d hlow
-    have hall : ∀ k, (restartWrites c d).length ≤ k → d.applyPrefix k (restartWrites c d) = d.applyAll (restartWrites c d) :=
-      fun k hk => applyPrefix_all _ _ _ hk
-    obtain ⟨p1, p2, _, _, _⟩ := hpf (restartWrites c d).length
-    rw [hall _ (Nat.le_refl _)] at p1 p2
-    have hwm1 : wmOf (d.applyAll (restartWrites c d)) hdrWmKey = some w1 := by rw [wmOf_congr p2]; exact hw1
-    have hwm2 : wmOf (d.applyAll (restartWrites c d)) dataWmKey = some w2 := by rw [wmOf_congr p2]; exact hw2
+    have hgen := restartWrites_gen c d w1 w2
+    have hwmall : WmOK (d.applyAll (restartWrites c d w1 w2)) :=
+      wmOK_applyAll (fun w hw => (hgen w hw).wmSafe) hd.wm
+    obtain ⟨⟨x1, hx1⟩, ⟨x2, hx2⟩⟩ := hwmall
+    obtain ⟨p1, _, _, p4⟩ := genWrites_facts hlow hgen
+    obtain ⟨hh, hg⟩ := restart_all_facts c d w1 w2 hlow
+    -- what `start` reads and computes
+    generalize hd2 : (d.apply (SW.saveBlock c.initialHeight (genesisBlock c))).applyAll
+        (setHeightW (d.apply (SW.saveBlock c.initialHeight (genesisBlock c))) (c.initialHeight - 1)) = d2
+    have hd2kv : d2.kv = d.kv := by
+      rw [← hd2, (applyAll_setHeightW _ _).2.2.2]; rfl
+    have hr1 : wmOf d2 hdrWmKey = some w1 := by rw [wmOf_congr hd2kv]; exact hw1
+    have hr2 : wmOf d2 dataWmKey = some w2 := by rw [wmOf_congr hd2kv]; exact hw2
+    have hstore : (d2.applyAll (wmWrite c hdrWmKey w1)).applyAll (wmWrite c dataWmKey w2) =
+        d.applyAll (restartWrites c d w1 w2) := by
+      rw [← hd2]
+      simp only [restartWrites, applyAll_append]
+      rfl
     have hstart : start c d = .ok
-        ({ store := d.applyAll (restartWrites c d), lastState := genesisState c,
-           lastBatchData := (((d.applyAll (restartWrites c d)).getMeta lastBatchDataKey).bind bytesToBatchData).getD [],
-           hdrWm := w1, dataWm := w2, daHeight := 0 }, restartWrites c d) := by
+        ({ store := d.applyAll (restartWrites c d w1 w2), lastState := genesisState c,
+           lastBatchData := (((d.applyAll (restartWrites c d w1 w2)).getMeta lastBatchDataKey).bind bytesToBatchData).getD [],
+           hdrWm := wmRaise c w1, dataWm := wmRaise c w2, daHeight := 0 }, restartWrites c d w1 w2) := by
       unfold start
       simp only [hst]
-      have e : (d.apply (SW.saveBlock c.initialHeight (genesisBlock c))).applyAll
-          (setHeightW (d.apply (SW.saveBlock c.initialHeight (genesisBlock c))) (c.initialHeight - 1)) =
-          d.applyAll (restartWrites c d) := rfl
-      rw [e, hwm1, hwm2]
-      simp [genesisState, restartWrites]
-    refine ⟨_, _, hstart, inv_restart_genesis hd.ihPos hlow habove rfl rfl, Or.inr ⟨by rw [p1, hst], rfl⟩,
-      ⟨⟨w1, hwm1⟩, ⟨w2, hwm2⟩⟩, rfl, ?_, ?_, fun h => absurd rfl h⟩
+      rw [hd2, hr1, hr2]
+      simp only
+      rw [← hstore]
+      simp [genesisState, restartWrites, wmWrite, wmRaise, hd2]
+    refine ⟨_, _, hstart, ?_, Or.inr ⟨by rw [p1, hst], rfl⟩, ⟨⟨x1, hx1⟩, ⟨x2, hx2⟩⟩, rfl, ?_, ?_, ?_⟩
+    · exact live_genesis hd.ihPos hh hg (fun h hgt => by
+        show (d.applyAll (restartWrites c d w1 w2)).getBlock h = none
+        rw [p4 h (by omega)]; exact habove h hgt) rfl
     · intro k
-      obtain ⟨q1, q2, _, q4, q5⟩ := hpf k
-      refine dinv_of_noState hd.ihPos ?_ (by rw [q1, hst]) q4 (fun h hgt => by rw [q5 h (by omega)]; exact habove h hgt)
-      exact ⟨⟨w1, by rw [wmOf_congr q2]; exact hw1⟩, ⟨w2, by rw [wmOf_congr q2]; exact hw2⟩⟩
+      have hk : ∀ w ∈ (restartWrites c d w1 w2).take k, GenWrite c w := fun w hw => hgen w (List.mem_of_mem_take hw)
+      obtain ⟨q1, _, q3, q4⟩ := genWrites_facts hlow hk
+      unfold Store.applyPrefix
+      exact dinv_of_noState hd.ihPos (wmOK_applyAll (fun w hw => (hk w hw).wmSafe) hd.wm) (by rw [q1, hst]) q3
+        (fun h hgt => by rw [q4 h (by omega)]; exact habove h hgt)
     · intro k
-      obtain ⟨_, _, q3, q4, q5⟩ := hpf k
-      exact ⟨q3, by omega, fun h hh => q5 h (by omega)⟩
+      have hk : ∀ w ∈ (restartWrites c d w1 w2).take k, GenWrite c w := fun w hw => hgen w (List.mem_of_mem_take hw)
+      obtain ⟨_, q2, q3, q4⟩ := genWrites_facts hlow hk
+      exact ⟨q2, by unfold Store.applyPrefix; omega, fun h hh => q4 h (by omega)⟩
+    · intro s hs; cases hs
   | some s =>
-    obtain ⟨hge, hi⟩ := hd.withState s hst
-    have hh : d.height = s.lastHeight := hi.hs
-    have hnw : setHeightW d s.lastHeight = [] := by simp [setHeightW, hh]
+    obtain ⟨hge, hle, hl⟩ := hd.withState s hst
+    have hdr := dinv_raised hd hst
+    obtain ⟨r1, r2, r3, r4⟩ := raised_facts d s
+    have hdle := hd.height_le hst
+    have hrh : (raised d s).height = s.lastHeight := hl.hs
+    have hr1 : wmOf (raised d s) hdrWmKey = some w1 := by rw [wmOf_congr r4]; exact hw1
+    have hr2 : wmOf (raised d s) dataWmKey = some w2 := by rw [wmOf_congr r4]; exact hw2
+    have hwl : ∀ w ∈ wmWrite c hdrWmKey w1 ++ wmWrite c dataWmKey w2, IsWm w := by
+      intro w hw
+      rcases List.mem_append.mp hw with h | h
+      · exact wmWrite_isWm _ _ _ w h
+      · exact wmWrite_isWm _ _ _ w h
+    obtain ⟨f1, f2, f3, f4⟩ := wm_applyAll hdr hwl
+    have hstore : ((raised d s).applyAll (wmWrite c hdrWmKey w1)).applyAll (wmWrite c dataWmKey w2) =
+        d.applyAll (resumeWrites c d s w1 w2) := by
+      simp only [resumeWrites, applyAll_append]; rfl
+    have hstore' : (raised d s).applyAll (wmWrite c hdrWmKey w1 ++ wmWrite c dataWmKey w2) =
+        d.applyAll (resumeWrites c d s w1 w2) := by
+      rw [applyAll_append]; exact hstore
     have hstart : start c d = .ok
-        ({ store := d, lastState := s,
-           lastBatchData := ((d.getMeta lastBatchDataKey).bind bytesToBatchData).getD [],
-           hdrWm := w1, dataWm := w2, daHeight := s.daHeight }, []) := by
+        ({ store := d.applyAll (resumeWrites c d s w1 w2), lastState := s,
+           lastBatchData := (((d.applyAll (resumeWrites c d s w1 w2)).getMeta lastBatchDataKey).bind bytesToBatchData).getD [],
+           hdrWm := wmRaise c w1, dataWm := wmRaise c w2, daHeight := s.daHeight }, resumeWrites c d s w1 w2) := by
       unfold start
       simp only [hst]
       have hng : ¬ c.initialHeight > s.lastHeight := by omega
-      simp only [hng, ↓reduceIte, hnw, applyAll_nil, hw1, hw2]
-      simp
-    refine ⟨_, _, hstart, hi.congr rfl rfl, Or.inl ⟨hst, hge⟩, hd.wm, rfl, ?_, ?_, fun _ => rfl⟩
-    · intro k; simpa [Store.applyPrefix, Store.applyAll] using hd
-    · intro k; simpa [Store.applyPrefix, Store.applyAll] using Adv.refl c d
+      simp only [hng, ↓reduceIte]
+      have e : d.applyAll (setHeightW d s.lastHeight) = raised d s := rfl
+      rw [e, hr1, hr2]
+      simp only
+      rw [← hstore]
+      simp [resumeWrites, wmWrite, wmRaise]
+    rw [hstore'] at f1 f2 f3 f4
+    refine ⟨_, _, hstart, ?_, Or.inl ⟨by rw [f4, r3, hst], hge⟩, f1.wm, rfl, ?_, ?_, ?_⟩
+    · exact hl.of_same f2 f3 rfl
+    · intro k
+      unfold Store.applyPrefix resumeWrites
+      rw [List.append_assoc, List.take_append, applyAll_append]
+      have hk : ∀ w ∈ (wmWrite c hdrWmKey w1 ++ wmWrite c dataWmKey w2).take (k - (setHeightW d s.lastHeight).length), IsWm w :=
+        fun w hw => hwl w (List.mem_of_mem_take hw)
+      rcases setHeightW_take d s.lastHeight k with h | h
+      · rw [h]; exact (wm_applyAll hd hk).1
+      · rw [h]; exact (wm_applyAll hdr hk).1
+    · intro k
+      unfold Store.applyPrefix resumeWrites
+      rw [List.append_assoc, List.take_append, applyAll_append]
+      have hk : ∀ w ∈ (wmWrite c hdrWmKey w1 ++ wmWrite c dataWmKey w2).take (k - (setHeightW d s.lastHeight).length), IsWm w :=
+        fun w hw => hwl w (List.mem_of_mem_take hw)
+      rcases setHeightW_take d s.lastHeight k with h | h
+      · rw [h]
+        obtain ⟨_, g2, g3, _⟩ := wm_applyAll hd hk
+        exact ⟨by omega, by omega, fun h _ => g3 h⟩
+      · rw [h]
+        obtain ⟨_, g2, g3, _⟩ := wm_applyAll hdr hk
+        have e : d.applyAll (setHeightW d s.lastHeight) = raised d s := rfl
+        rw [e]
+        exact ⟨by omega, by omega, fun h _ => by rw [g3, r2]⟩
+    · intro s' hs'
+      have : s = s' := by simpa using hs'
+      subst this
+      exact ⟨rfl, by show (d.applyAll (resumeWrites c d s w1 w2)).height = _; rw [f2, hrh], w1, w2, rfl⟩
 
 end Producer
